@@ -47,6 +47,30 @@ PROPS = {
         "trusted_base": TB_COMMON + ["f64 digit estimate inside get_rounding_term/digits(): scalar condition EstOK (see C18)"],
         "assumptions": ASSUME_COMMON,
     },
+    "C09": {
+        "rule": "pairs (a, b) with 1..2000 digits, both signs, scale gaps 0..10^4 in either direction (every gap 0..45, the 19/20/21 and 589..608 algorithm switches), "
+                "through the four ownership forms and %=; b = 0 (must panic), a an exact multiple of b, operands equal up to representation, |a| < |b|, zero a. "
+                "Observable: the value (and panic / no panic). Non-trivial = a non-zero.",
+        "trusted_base": TB_COMMON,
+        "assumptions": ASSUME_COMMON,
+    },
+    "C15": {
+        "rule": "for each of i64/u64/i128/u128 MIN, MAX, their negatives and 0: the values limit + {-2.5,…,+2.5} step 0.5 and limit + random fraction, at scales 1..40, "
+                "through to_i64/to_i128/to_u64/to_u128 on values and references, to_bigint, is_integer; small unscaled values at negative scales up to -40 (pushed past a limit), "
+                "fractions in (-1,1), zeros with any scale, integers written with trailing zeros; From<prim>/From<&prim>/FromPrimitive for every width on MIN, MAX, 0, ±1, random; From<BigInt>. "
+                "Observable: the exact Option<integer> / bool / (int, scale).",
+        "trusted_base": TB_COMMON,
+        "assumptions": ASSUME_COMMON,
+    },
+    "C19": {
+        "rule": "random straight-line programs of length 1..40 on an accumulator; each step is a binary operation through a randomly chosen overload (98 overloads, accumulator on "
+                "either side where the forms allow, all primitive widths) with an operand from a pool (random, zero-with-scale, one-with-zeros, powers of ten, value-equal twin), or "
+                "neg/abs/double/half/square/cube/normalize/clone-through-reference, upward re-scaling (0..700), or a sum over owned values / references. After EVERY step the implementation's "
+                "value is compared with the model's and with the exact evaluation; cmp/== against the previous accumulator and hash equality with a re-scaled twin are checked too. "
+                "The model continues from the implementation's representation so later steps see the same intermediate forms. Non-trivial = at least two steps.",
+        "trusted_base": TB_COMMON,
+        "assumptions": ASSUME_COMMON,
+    },
 }
 
 
